@@ -2,7 +2,7 @@
 bounded-state families (C05, C07, C09, C10, C11, C12, C13, C14)."""
 import itertools
 
-from .gen import B, ret, env, METH, stream_scn
+from .gen import B, ret, env, METH, stream_scn, pay
 
 H = 3600 * 1000  # one hour of virtual time, in ms
 
@@ -914,6 +914,7 @@ def c06(tier, rng, fam='C06'):
     # are answered with at most a reset: nothing follows a stream's trailer, no second handler runs
     out += late_messages(fam)
     out += unencodable_send(fam)
+    out += random_programs(fam, 150 if tier == 'quick' else 3000, rng)
     return out
 
 
@@ -1165,7 +1166,7 @@ def route_echo(tier, rng, fam='C16'):
 
 # ------------------------------------------------------------- gate sweep -----
 
-SWEEP_GATES = ['mux.call.window', 'mux.await.window', 'cs.recv.window', 'cs.send.window',
+SWEEP_GATES = ['mux.call.window', 'mux.await.window', 'cs.recv.window', 'cs.send.window', 'cs.read.window',
                'srv.writer.window', 'srv.forward.window', 'srv.stream.exit', 'cs.teardown.window']
 
 
@@ -1177,6 +1178,9 @@ def _sweep_bases():
                  ('send', dict(c=1, pay='b')), ('recv', dict(c=1)), ('close', dict(c=1)), ('recv', dict(c=1))],
         'herr': [('sopen', dict(c=1, kind='bidi', hp=[dict(o='recv'), ret(code=5, msg='no')])), ('send', dict(c=1, pay='a')),
                  ('send', dict(c=1, pay='b')), ('close', dict(c=1)), ('recv', dict(c=1, n=2))],
+        # the handler answers and returns successfully before the caller has half-closed (the caller keeps sending)
+        'earlyok': [('sopen', dict(c=1, kind='bidi', hp=[dict(o='recv'), dict(o='send', pay='r0'), ret()])), ('send', dict(c=1, pay='a')),
+                    ('send', dict(c=1, pay='b')), ('recv', dict(c=1)), ('send', dict(c=1, pay='c')), ('recv', dict(c=1, n=2))],
         'cancel': [('sopen', dict(c=1, kind='bidi', hp=[dict(o='recv'), dict(o='send', pay='u0'), dict(o='ctxwait'), ret(code=1, msg='gone')])),
                    ('send', dict(c=1, pay='a')), ('recv', dict(c=1)), ('cancel', dict(c=1)), ('recv', dict(c=1))],
         'failsend': [('sopen', dict(c=1, kind='bidi', hp=[dict(o='ctxwait'), ret(code=1, msg='gone')])), ('fault', dict(what='cwrite1')),
@@ -1189,7 +1193,7 @@ def _sweep_bases():
     }
 
 
-def gate_sweep(tier, rng, fam, sample=None, only=None):
+def gate_sweep(tier, rng, fam, sample=None, only=None, gates=None):
     """systematic schedules: every base conversation x every instrumented window x every (arm, release)
     position - the first goroutine to reach the window after step i is held there until after step j while
     everything else runs to quiescence; at the end nothing is pending, registered or running"""
@@ -1197,7 +1201,7 @@ def gate_sweep(tier, rng, fam, sample=None, only=None):
     for bname, steps in _sweep_bases().items():
         if only and bname not in only:
             continue
-        for gate in SWEEP_GATES:
+        for gate in (gates or SWEEP_GATES):
             if gate == 'cs.teardown.window' and bname != 'failsend':
                 continue      # elsewhere its first visitor holds the stream's state lock (a mutex: not a durable block)
             n = len(steps)
@@ -1225,6 +1229,17 @@ def sweep_c14(tier, rng, fam='C14'):
 
 def sweep_c11(tier, rng, fam='C11'):
     return gate_sweep(tier, rng, fam, sample=120 if tier == 'quick' else None)
+
+
+def sweep_c02(tier, rng, fam='C02'):
+    # how a stream ends for its caller when one of the caller's own operations is held in a window while the stream finishes
+    return gate_sweep(tier, rng, fam, sample=90 if tier == 'quick' else None, only=('echo', 'earlyok', 'ss', 'cs'),
+                      gates=('cs.send.window', 'cs.recv.window', 'cs.read.window', 'srv.stream.exit', 'srv.writer.window'))
+
+
+def sweep_c03(tier, rng, fam='C03'):
+    return gate_sweep(tier, rng, fam, sample=90 if tier == 'quick' else None, only=('herr', 'earlyok', 'unary'),
+                      gates=('cs.send.window', 'cs.recv.window', 'cs.read.window', 'mux.await.window', 'srv.stream.exit', 'srv.writer.window'))
 
 
 def sweep_c07(tier, rng, fam='C07'):
@@ -1445,4 +1460,76 @@ def ends_while_another_write_is_stuck(fam):
                     b.step('recv', c=1).step('close', c=1).step('recv', c=1)
                 b.step('ucall', c=9, pay='probe', hp=[ret(pay='fine')])
                 out.append(b.q().done())
+    return out
+
+
+def random_programs(fam, count, rng, maxcalls=4):
+    """random multi-call programs: 2..maxcalls concurrent calls of random kinds on one or two connections, each with a
+    random (self-consistent) client and handler program - echo, answer-after-draining, bursts, early returns with and
+    without an error, cancellations at random points - interleaved at random, with a census at random points.
+    The specification is the oracle; nothing here is expected in particular."""
+    out = []
+    for k in range(count):
+        ncli = rng.choice((1, 1, 1, 2))
+        ser = rng.random() < 0.5
+        ncalls = rng.randint(2, maxcalls)
+        progs, opens = [], []
+        for ci in range(1, ncalls + 1):
+            kind = rng.choice(('unary', 'bidi', 'bidi', 'cs', 'ss'))
+            conn = rng.randint(1, ncli)
+            code = rng.choice((0, 0, 0, 5, 13))
+            if kind == 'unary':
+                hp = [ret(pay='r%d' % ci)] if code == 0 else [ret(code=code, msg='u%d' % ci)]
+                progs.append([dict(op='ucall', c=ci, conn=conn, pay=pay(rng, 'q%d' % ci, rng.choice((None, None, 300, 4096))), hp=hp)])
+                continue
+            n = rng.randint(0, 4)                      # client messages
+            m = rng.randint(0, 4)                      # handler messages
+            shape = rng.choice(('echo', 'drain', 'burst', 'early')) if kind != 'ss' else 'ss'
+            if kind == 'cs' and shape == 'echo':
+                shape = 'drain'
+            if shape == 'echo':
+                hp, m = [dict(o='echo')], n
+            elif shape == 'drain':
+                hp = [dict(o='drain')] + [dict(o='send', pay='h%d.%d' % (ci, i)) for i in range(m if kind == 'bidi' else min(m, 1))] + [ret(code=code, msg='d%d' % ci if code else '')]
+            elif shape == 'burst':
+                mm = m if kind == 'bidi' else min(m, 1)
+                hp = [dict(o='send', pay='h%d.%d' % (ci, i)) for i in range(mm)] + [dict(o='drain'), ret(code=code, msg='b%d' % ci if code else '')]
+            elif shape == 'early':
+                j = rng.randint(0, max(0, n - 1))
+                hp = [dict(o='recv')] * j + [ret(code=code, msg='e%d' % ci if code else '')]
+            else:
+                n = 1
+                hp = [dict(o='recv')] + [dict(o='send', pay='h%d.%d' % (ci, i)) for i in range(m)] + [dict(o='drain'), ret(code=code, msg='s%d' % ci if code else '')]
+            p = [dict(op='sopen', c=ci, conn=conn, kind=kind, hp=hp)]
+            sends = [dict(op='send', c=ci, pay='c%d.%d' % (ci, i)) for i in range(n)]
+            recvs = [dict(op='recv', c=ci) for _ in range(m + 1)]
+            body = []
+            if kind == 'bidi':
+                si, ri = 0, 0
+                while si < len(sends) or ri < len(recvs) - 1:
+                    if si < len(sends) and (ri >= len(recvs) - 1 or rng.random() < 0.6):
+                        body.append(sends[si]); si += 1
+                    else:
+                        body.append(recvs[ri]); ri += 1
+                body += [dict(op='close', c=ci), recvs[-1], dict(op='recv', c=ci)]
+            else:
+                body = sends + [dict(op='close', c=ci)] + recvs + [dict(op='recv', c=ci)]
+            if rng.random() < 0.25:
+                cut = rng.randint(0, len(body))
+                body = body[:cut] + [dict(op='cancel', c=ci), dict(op='recv', c=ci), dict(op='send', c=ci, pay='late%d' % ci)]
+            if rng.random() < 0.3:
+                body.insert(rng.randint(0, len(body)), dict(op='hdr', c=ci))
+            if rng.random() < 0.3:
+                body.append(dict(op='trl', c=ci))
+            progs.append(p + body)
+        b = B(fam, 'random program #%d: %d calls on %d connection(s)' % (k, ncalls, ncli), ser=ser, ncli=ncli)
+        idx = [0] * len(progs)
+        while any(idx[i] < len(progs[i]) for i in range(len(progs))):
+            i = rng.choice([i for i in range(len(progs)) if idx[i] < len(progs[i])])
+            st = dict(progs[i][idx[i]])
+            idx[i] += 1
+            b.s['steps'].append(st)
+            if rng.random() < 0.12:
+                b.q()
+        out.append(b.q().done())
     return out
